@@ -58,6 +58,22 @@ pub fn universe(name: &str) -> Vec<Key> {
             let (a, b): (u32, u32) = (a.parse().unwrap(), b.parse().unwrap());
             (a..b).map(|i| cluster_key(p, i)).collect()
         }
+        // PAIRS:<k> — k pairs of keys; pair i shares the 6-bit prefix i (so each pair needs its
+        // own depth-1 merkle page) and differs at bit 7
+        n if n.starts_with("PAIRS:") => {
+            let k: u8 = n[6..].parse().unwrap();
+            let mut v = vec![];
+            for i in 0..k {
+                let mut a = [0u8; 32];
+                a[0] = i << 2;
+                a[31] = 1;
+                let mut b = a;
+                b[0] |= 1;
+                v.push(a);
+                v.push(b);
+            }
+            v
+        }
         _ => panic!("unknown universe {name}"),
     }
 }
